@@ -90,8 +90,8 @@ theorem CoreEq.trans {s s' s'' : State} (h1 : CoreEq s s') (h2 : CoreEq s' s'') 
 
 /-- a peer update that touches only name / user-independent fields / routes -/
 theorem CoreEq.of_updatePeer (s s' : State) (c : Nat) (g : Peer → Peer)
-    (hg : ∀ q, fcore (g q) = fcore q ∧ (g q).elements = q.elements)
-    (h1 : s'.peers = updatePeer s.peers c g) (h2 : s'.index = s.index) (h3 : s'.nextUid = s.nextUid) :
+    (h1 : s'.peers = updatePeer s.peers c g) (h2 : s'.index = s.index) (h3 : s'.nextUid = s.nextUid)
+    (hg : ∀ q, fcore (g q) = fcore q ∧ (g q).elements = q.elements) :
     CoreEq s s' := by
   refine ⟨?_, ?_, h2, h3⟩
   · rw [h1]; exact map_updatePeer_congr fcore _ _ _ (fun q => (hg q).1)
@@ -140,7 +140,7 @@ theorem quiet_of_st (x : Ctx) (x' : Ctx) (ho : x'.out = x.out) (hc : CoreEq x.st
 theorem coreEq_removeRoute (s : State) (owner : Nat) (rid : Bytes) :
     CoreEq s { s with peers := removeRoute s.peers owner rid } :=
   CoreEq.of_updatePeer s _ owner (fun q => { q with routes := q.routes.filter (·.rid != rid) })
-    (fun _ => ⟨rfl, rfl⟩) rfl rfl rfl
+    rfl rfl rfl (fun _ => ⟨rfl, rfl⟩)
 
 theorem quiet_sendResponse (x : Ctx) (c : Nat) (resp : Option Json) (h : ∀ j, resp = some j → IsResp j) :
     Quiet x (sendResponse x c resp).1 := by
